@@ -72,11 +72,8 @@ def check(tier: str) -> Report:
     if not mc.ok:
         raise Machinery(f"spec-level counterexample in BudgetMC: {mc.violated}\n{mc.output[-2000:]}")
     # symbolic: the window invariant is inductive for arbitrary integer max_retries, window and times
-    from .apalache import apalache_inductive
-    sym = apalache_inductive("BudgetInd", mutants={
-        "prune-keeps-boundary": ("Keep(e) == e > cutoff", "Keep(e) == e >= cutoff"),
-        **({"capacity-off-by-one": ("IF Len(q1) + cost > Max THEN 0 ELSE 1",
-                                    "IF Len(q1) + cost > Max + 1 THEN 0 ELSE 1")} if tier != "quick" else {})})
+    from .apalache import budget_symbolic
+    sym = budget_symbolic(tier)
     ex = run_tlc("BudgetMC.tla", pick_cfg("BudgetMC_export", tier), tag="bud-exp", timeout=3000)
     if not ex.ok:
         raise Machinery(f"BudgetMC export violated {ex.violated}")
